@@ -377,7 +377,7 @@ def run(ctx):
     wit = ["bt.all\t" + hexs(enc("i64", 0) + EQUAL + enc("i32", 0))]
     impl, model = ctx.correspond("witness_B", wit, nontrivial=nontrivial)
     judge.check(wit, impl, model, "witness_B")
-    gen_streams(ctx, judge, ctx.scale((5, 3, 3000, 20000, 20000), (6, 4, 30000, 200000, 200000)))
+    gen_streams(ctx, judge, ctx.scale((5, 4, 3000, 20000, 20000), (6, 4, 30000, 200000, 200000)))
     judge.flush()
 
 
